@@ -60,6 +60,14 @@ func c17Opt(i int, opt int, t *c17Test) []z.TestOption {
 	case 4:
 		t.params = map[string]any{"k": i}
 		return []z.TestOption{z.Params(map[string]any{"k": i})}
+	case 6:
+		// a default Message inside a reusable helper, overridden by the caller's MessageFunc: the later option counts
+		t.msg = fmt.Sprintf("F%d", i)
+		m := t.msg
+		return []z.TestOption{z.Message("default text"), z.MessageFunc(func(e *z.ZogIssue, c z.Ctx) { e.SetMessage(m) })}
+	case 7:
+		t.msg = fmt.Sprintf("M%d", i)
+		return []z.TestOption{z.MessageFunc(func(e *z.ZogIssue, c z.Ctx) { e.SetMessage("from the function") }), z.Message(t.msg)}
 	case 5:
 		// defaults first, the caller's own value after them (the reusable-test pattern): the later option counts,
 		// and the map given to the earlier one — which other tests may hold too — is the caller's and stays as it was
@@ -228,7 +236,7 @@ func c17StringScenario(maxLen int, first int) mc.Scenario {
 			c := calls[ci]
 			opt := 0
 			if c.hasOpt {
-				opt = x.Choose(6, "option")
+				opt = x.Choose(8, "option")
 			}
 			chain = append(chain, fmt.Sprintf("%s/opt%d", c.name, opt))
 			s = c.apply(s, m, opt)
@@ -587,7 +595,7 @@ func c17Len(tier string) int {
 func init() {
 	Register(&Prop{
 		ID:    "C17",
-		Rule:  "one execution = one chain of ≤L builder calls on z.String() from {Min, Max, Len, HasPrefix, ContainsDigit, Not().Len, Not().HasPrefix, Not().ContainsDigit, Not().Contains, degenerate parameters Contains(empty), Not().Contains(empty), Not().HasPrefix(empty), Min(0), Not().Len(0), Not().OneOf(empty list), TestFunc} × option {none, Message, IssueCode, IssuePath, Params, Params given twice (a shared map, then the test's own)} and {Required, Required(Message), Optional, Default ×2, Catch ×2}, built through the real API and run on 7 subjects in both modes against a list-based model of what each call means; plus Int chains (tests × options, modifiers), plus one schema object at two places (two fields, field + slice element, field + behind pointer) vs independent copies, plus WithCoercer locality (own schema; through Ptr); every chain is non-trivial; distinct = distinct chains",
+		Rule:  "one execution = one chain of ≤L builder calls on z.String() from {Min, Max, Len, HasPrefix, ContainsDigit, Not().Len, Not().HasPrefix, Not().ContainsDigit, Not().Contains, degenerate parameters Contains(empty), Not().Contains(empty), Not().HasPrefix(empty), Min(0), Not().Len(0), Not().OneOf(empty list), TestFunc} × option {none, Message, IssueCode, IssuePath, Params, Params given twice (a shared map, then the test's own), Message then MessageFunc, MessageFunc then Message (the later one counts)} and {Required, Required(Message), Optional, Default ×2, Catch ×2}, built through the real API and run on 7 subjects in both modes against a list-based model of what each call means; plus Int chains (tests × options, modifiers), plus one schema object at two places (two fields, field + slice element, field + behind pointer) vs independent copies, plus WithCoercer locality (own schema; through Ptr); every chain is non-trivial; distinct = distinct chains",
 		Floor: 50,
 		Bound: func(tier string) string { return fmt.Sprintf("all String chains of length ≤%d, all Int chains of length ≤3", c17Len(tier)) },
 		Assumptions: []string{"Not() is followed by the methods of the interface it returns, or — called as a statement of its own — by Min / Max on the schema value (all the type system permits)", "messages are compared only where a Message option was given"},
